@@ -15,7 +15,7 @@ from .common import CD, SLC, ckey
 P = "C18"
 PCCC = "pycomm3.cip.pccc"
 EXPLANATION = (
-    "Static rules D18.1-D18.12 (DESIGN.md section 5, C18): integer-typed address arithmetic of the binary-file bit form in linear "
+    "Static rules D18.1-D18.13 (DESIGN.md section 5, C18): integer-typed address arithmetic of the binary-file bit form in linear "
     "normal form (element = n // 16, bit = n % 16; true division is a distinct float atom); regex AST facts (re._parser) - every "
     "address pattern is applied so that the whole string must match, digit widths admit the checked ranges; every returned "
     "address record is dominated by the documented range tests of the fields it carries; file-type letters accepted by the "
@@ -1022,3 +1022,103 @@ def d18_12(ctx):
             got = bytes(got)
         ctx.check(got == want, key, wv.node, f"{label} -> {want.hex() if isinstance(want, bytes) else want}",
                   f"masked-write payload for {label} is {got.hex() if isinstance(got, bytes) else got!r}, expected {want.hex() if isinstance(want, bytes) else want} (mask + data): another bit / word is written or a valid value is refused", witness=label)
+
+
+@rule(P, "D18.13", "T-WITNESS", floor=10)
+def d18_13(ctx):
+    """The typed-read / masked-write commands and their replies, folded on witness addresses with the transport replaced by
+    witnesses (sa/miniinterp.py): the PCCC body handed to the packet is CMD 0F, STS 00, TNS, FNC A2/AB, byte size, file number,
+    file type, element, sub-element (+ mask and data for writes); a zero status byte gives the decoded value / the written
+    value, any other status a falsy Tag with that status text; one address gives one Tag, several a list in order."""
+    import struct as _st
+
+    from ..miniinterp import Obj, run_function
+
+    drv = ctx.model.cls(f"{SLC}:SLCDriver")
+    sp = ctx.spec("pccc")
+    types = ctx.folder.module_value(PCCC, "PCCC_DATA_TYPE")
+    sizes = ctx.folder.module_value(PCCC, "PCCC_DATA_SIZE")
+    start = ctx.folder.module_value(SLC, "SLC_REPLY_START")
+    if not (isinstance(types, dict) and isinstance(sizes, dict) and isinstance(start, int)):
+        ctx.undecided(ckey(drv.key, "pccc-witness"), drv.node, "PCCC tables / reply offset not foldable")
+        return
+    MS = b"<msg-start>"
+
+    def make_hook(sent, reply):
+        def hook(call, env, it):
+            path = attr_path(call.func) or ""
+            if path == "self._msg_start":
+                return MS
+            if call_name(call) == "next":
+                return 7
+            if path.endswith(".add") and isinstance(call.func, ast.Attribute) and not path.startswith("self."):
+                sent.append(it.ev(call.args[0], env))
+                return None
+            if path == "self.send":
+                sent.append("<send>")
+                return Obj(raw=reply)
+            return UNKNOWN
+
+        return hook
+
+    def reply(status, data=b""):
+        return bytes(58) + bytes([status]) + bytes(start - 59) + data
+
+    def body(fnc, ft, fno, el, sub, n):
+        return MS + b"\x0f\x00" + _st.pack("<H", 7) + fnc + bytes([sizes[ft] * n, fno]) + types[ft] + bytes([el, sub])
+
+    rd, wr = drv.methods["_read_tag"], drv.methods["_write_tag"]
+    cases = [("N7:3", "N", 7, 3, 0, 1, _st.pack("<h", 55), 55), ("F8:1{2}", "F", 8, 1, 0, 2, _st.pack("<ff", 1.5, 2.5), [1.5, 2.5]), ("o:2.3", "O", 0, 2, 3, 1, _st.pack("<h", 9), 9), ("B3/17", "B", 3, 1, 0, 1, _st.pack("<h", 2), True)]
+    for addr, ft, fno, el, sub, n, data, want in cases:
+        for status in (0, 0x10):
+            sent = []
+            kind, res = run_function(ctx, drv.module, rd, {"self": Obj(_sequence=Obj()), rd.args.args[1].arg: addr}, call_hook=make_hook(sent, reply(status, data)), deep=False)
+            key = ckey(f"{drv.key}._read_tag", f"witness:{addr}/status{status:02x}")
+            if kind == "unknown":
+                ctx.undecided(key, rd, f"_read_tag not foldable on {addr}: {res}")
+                continue
+            want_body = body(b"\xa2", ft, fno, el, sub, n)
+            got_body = sent[0] if sent and isinstance(sent[0], (bytes, bytearray)) else None
+            tag_args = res.args if isinstance(res, Instance) else None
+            if status == 0:
+                ok = kind == "return" and got_body == want_body and sent[1:] == ["<send>"] and tag_args is not None and tag_args[1] == want and type(tag_args[1]) is type(want) and (len(tag_args) < 4 or tag_args[3] is None)
+            else:
+                ok = kind == "return" and tag_args is not None and tag_args[1] is None and len(tag_args) >= 4 and isinstance(tag_args[3], str) and bool(tag_args[3])
+            ctx.check(ok, key, rd, f"read {addr}: body {want_body[len(MS):].hex()} -> {'value ' + repr(want) if status == 0 else 'falsy Tag with the status text'}",
+                      f"read {addr} with reply status {status:#04x}: command body {got_body[len(MS):].hex() if got_body else got_body} (expected {want_body[len(MS):].hex()}), result {tag_args if tag_args is not None else (kind, res)}", witness=addr)
+    wcases = [("N7:3", "N", 7, 3, 0, 1, 5, b"\xff\xff" + _st.pack("<h", 5)), ("N7:3/4", "N", 7, 3, 0, 1, True, b"\x10\x00\x10\x00"), ("i:1.2/5", "I", 1, 1, 2, 1, False, b"\x20\x00\x00\x00"), ("N7:0{2}", "N", 7, 0, 0, 2, [1, 2], b"\xff\xff" + _st.pack("<hh", 1, 2))]
+    for addr, ft, fno, el, sub, n, value, payload in wcases:
+        for status in (0, 0x10):
+            sent = []
+            kind, res = run_function(ctx, drv.module, wr, {"self": Obj(_sequence=Obj()), wr.args.args[1].arg: addr, wr.args.args[2].arg: value}, call_hook=make_hook(sent, reply(status)), deep=False)
+            key = ckey(f"{drv.key}._write_tag", f"witness:{addr}/status{status:02x}")
+            if kind == "unknown":
+                ctx.undecided(key, wr, f"_write_tag not foldable on {addr}: {res}")
+                continue
+            want_body = body(b"\xab", ft, fno, el, sub, n) + payload
+            got_body = sent[0] if sent and isinstance(sent[0], (bytes, bytearray)) else None
+            tag_args = res.args if isinstance(res, Instance) else None
+            if status == 0:
+                ok = kind == "return" and got_body == want_body and sent[1:] == ["<send>"] and tag_args is not None and tag_args[1] == value and (len(tag_args) < 4 or tag_args[3] is None)
+            else:
+                ok = kind == "return" and tag_args is not None and tag_args[1] is None and len(tag_args) >= 4 and isinstance(tag_args[3], str) and bool(tag_args[3])
+            ctx.check(ok, key, wr, f"write {addr}: body {want_body[len(MS):].hex()} -> {'Tag with the written value' if status == 0 else 'falsy Tag with the status text'}",
+                      f"write {addr} with reply status {status:#04x}: command body {got_body[len(MS):].hex() if got_body else got_body} (expected {want_body[len(MS):].hex()}), result {tag_args if tag_args is not None else (kind, res)}", witness=addr)
+    # one address -> one Tag, several -> list in order
+    for name, inner, args in (("read", "_read_tag", ("N7:0",)), ("read", "_read_tag", ("N7:0", "N7:1", "N7:2")), ("write", "_write_tag", (("N7:0", 1),)), ("write", "_write_tag", (("N7:0", 1), ("N7:1", 2)))):
+        fn = drv.methods[name]
+
+        def hook(call, env, it, _inner=inner):
+            if attr_path(call.func) == f"self.{_inner}":
+                return ("tag-of",) + tuple(it.ev(a, env) for a in call.args)
+            return UNKNOWN
+
+        vararg = fn.args.vararg.arg if fn.args.vararg else None
+        kind, res = run_function(ctx, drv.module, fn, {"self": Obj(), vararg: tuple(args)}, call_hook=hook, deep=False)
+        key = ckey(f"{drv.key}.{name}", f"shape:{len(args)}")
+        if kind == "unknown":
+            ctx.undecided(key, fn, f"{name} not foldable: {res}")
+            continue
+        each = [("tag-of",) + (a if isinstance(a, tuple) else (a,)) for a in args]
+        want = each[0] if len(args) == 1 else each
+        ctx.check(kind == "return" and res == want, key, fn, f"{name} of {len(args)} address(es) returns {'the Tag' if len(args) == 1 else 'the Tags in order'}", f"{name}{args} returns {res!r} (expected {want!r}): not one result per address in request order")
